@@ -24,7 +24,7 @@ CFG = """CONSTANTS
  Emit = "print"
 INIT Init
 NEXT Next
-INVARIANTS T_BaseAccepted T_AcceptWF T_StreamSound T_StreamAccept T_OnlyBenign T_HardRejects T_MayIffLenient T_Defects T_DeltaType T_ObjectCount T_DepthBound EmitRow
+INVARIANTS T_BaseAccepted T_AcceptWF T_StreamSound T_StreamAccept T_OnlyBenign T_HardRejects T_MayIffLenient T_Defects T_DeltaType T_ObjectCount T_DepthClasses T_DepthBound EmitRow
 CHECK_DEADLOCK FALSE
 """
 
@@ -32,6 +32,7 @@ CHECK_DEADLOCK FALSE
 def shard(ctx, name, **kw):
     r = ctx.tlc("MCPackGraph", cfg_text=CFG % kw, cfg="MCPackGraph_%s.cfg" % name, timeout=1500)
     rows = ctx.printed_json(r)
+    rows.sort(key=lambda x: json.dumps(x, sort_keys=True))   # parallel BFS prints in scheduling order: fix the order (seeded choices depend on it)
     if len(rows) != r.distinct:
         raise vlib.ToolingError("PackGraph shard %s: %d rows printed for %d distinct states" % (name, len(rows), r.distinct))
     p = ctx.path("rows_%s.ndjson" % name)
